@@ -501,6 +501,124 @@ def api_values(ctx, model, classes, calls, env, tmp):
             ctx.fail("ill-formed model built with add_command (%s): files or folders appeared: %r" % (tag, sorted(set(tree(tmp)) - set(before_tree))[:5]), desc)
 
 
+def empty_working_dir(ctx):
+    """a well-formed model whose paths are relative is accepted whatever well-formed spelling the working directory has - also "", which is what
+    os.path.dirname() gives for a bare file name and what the tool passes when started as `mpilot eems-csv model.mpt` inside the model's folder (relative
+    paths then resolve against the current directory, which is changed to the model's folder here and restored in a finally).  Real bodies: the model
+    must run and write its outputs.  Through Program.from_source and through the tool in-process; every command that has a path parameter"""
+    import contextlib, io
+    from mpilot.program import Program
+    from .. import clicorr
+    import mpilot.cli.mpilot as cli
+    tmp = common.tmpdir("mpv_c12_wd_")
+    os.mkdir(os.path.join(tmp, "sub"))
+    for fn in ("in.csv", os.path.join("sub", "in2.csv")):
+        with open(os.path.join(tmp, fn), "w") as f:
+            f.write("a,b\n1,2\n3,4\n5,6\n")
+    models = [
+        ("read+write", 'A = EEMSRead(InFileName = "in.csv", InFieldName = "a")\nF = CvtToFuzzy(InFieldName = A, TrueThreshold = 3, FalseThreshold = 1)\nOut = EEMSWrite(OutFileName = "out.csv", OutFieldNames = [A, F])\n', ["out.csv"]),
+        ("read-only", 'A = EEMSRead(InFileName = in.csv, InFieldName = a)\nB = EEMSRead(InFileName = in.csv, InFieldName = b)\nS = Sum(InFieldNames = [A, B])\n', []),
+        ("subfolder", 'A = EEMSRead(InFileName = "sub/in2.csv", InFieldName = "b")\nOut = EEMSWrite(OutFileName = "sub/out2.csv", OutFieldNames = [A])\n', ["sub/out2.csv"]),
+        ("dot-slash", 'A = EEMSRead(InFileName = "./in.csv", InFieldName = "a")\nOut = EEMSWrite(OutFileName = "./out3.csv", OutFieldNames = [A])\n', ["out3.csv"]),
+        ("printvars-file", 'A = EEMSRead(InFileName = "in.csv", InFieldName = "a")\nP = PrintVars(InFieldNames = [A], OutFileName = "vars.txt")\n', ["vars.txt"]),
+    ]
+    old = os.getcwd()
+    try:
+        os.chdir(tmp)
+        for tag, src, outs in models:
+            with open("model.mpt", "w") as f:
+                f.write(src)
+            # the spellings of "here": what dirname gives for a bare name, the dot, the absolute path
+            for wd_tag, wd in (("empty", os.path.dirname("model.mpt")), ("dot", "."), ("absolute", tmp), ("tool", None)):
+                for o in outs:
+                    if os.path.exists(o):
+                        os.remove(o)
+                outcome = "ok"
+                try:
+                    with contextlib.redirect_stdout(io.StringIO()):
+                        if wd_tag == "tool":
+                            code, err, crash = clicorr._invoke(cli.main, ["eems-csv", "model.mpt"])
+                            if code != 0 or crash != "-":
+                                outcome = "exit %s, escaped %s, standard error %r" % (code, crash, err[-300:])
+                        else:
+                            Program.from_source(src, working_dir=wd).run()
+                except BaseException as e:
+                    outcome = progrun.classify(e)
+                ctx.case("wd %s %s" % (wd_tag, src), sample={"kind": "relative-paths-wd-" + wd_tag, "source": src, "working_dir": wd, "impl": outcome})
+                ctx.count("kind:relative-paths-wd-" + wd_tag)
+                desc = {"source": src, "working_dir": wd, "current_directory": "the folder holding in.csv, sub/in2.csv and model.mpt",
+                        "how": "mpilot eems-csv model.mpt (in-process)" if wd_tag == "tool" else "Program.from_source(source, working_dir=%r).run()" % (wd,), "outcome": outcome}
+                if outcome != "ok":
+                    ctx.fail("well-formed model with relative paths (%s) rejected with the working directory %r (%s): %s" % (tag, wd, wd_tag, outcome), desc)
+                elif not all(os.path.exists(o) for o in outs):
+                    ctx.fail("well-formed model with relative paths (%s) accepted with the working directory %r, but %r not written" % (tag, wd, [o for o in outs if not os.path.exists(o)]), desc)
+    finally:
+        os.chdir(old)
+
+
+def _as_written(v):
+    """a value inside a list, as the error should carry it: names and texts as text, lists as lists"""
+    if isinstance(v, Name):
+        return v.s
+    return [_as_written(x) for x in v] if isinstance(v, list) else v
+
+
+def offending_values_in_lists(ctx, classes, calls, env, tmp):
+    """"the specific error names the offending ... value": a value of the wrong kind INSIDE a list (of numbers, of results) - a nested list, a nested list of
+    lists, a key:value tuple, a word - at every position of the list, written on a line of its own or not; from a command file and through add_command.
+    The ParameterNotValid raised carries that very value (the Python value the text denotes: no wrapper object of the parser) and its message shows it -
+    in particular no object repr with an address"""
+    import re
+    from mpilot import params as P
+    from mpilot.exceptions import ParameterNotValid
+    rng = ctx.rng
+    pairs = []
+    for cls in classes:
+        call = calls.get(cls.name)
+        for name, p in (cls.inputs.items() if call is not None else []):
+            if type(p) is P.ListParameter and type(p.value_type) in (P.NumberParameter, P.ResultParameter):
+                pairs.append((cls, call, name, p))
+    for k, (cls, call, name, p) in enumerate(pairs):
+        number = type(p.value_type) is P.NumberParameter
+        good = [1, 0.5, 2] if number else [Name("Rd"), Name("Rd"), Name("Rd")]
+        # (lists nested deeper - [1, [[2], 3]] - are left out: the pinned tree unwraps one level only and shows the inner list as an object there; reported, not demanded)
+        bads = ([[1, 2], [0.5, 1.5], [1, 2, 3.5], [], ["x"], {"a": "b"}, Name("word"), [Name("Rd")]] if number else [[Name("Rd")], [Name("Rd"), Name("Fz")], [Name("NoSuch")], [], [1, 2], {"a": "b"}, 5])
+        if not ctx.thorough:
+            bads = [bads[0], bads[1 + k % (len(bads) - 1)], bads[1 + (k + 3) % (len(bads) - 1)]]
+        for j, bad in enumerate(bads):
+            pos = (k + j) % 3
+            value = good[:pos] + [bad] + good[pos:2]
+            want = dict(bad) if isinstance(bad, dict) else _as_written(bad)
+            for how in ("source", "api"):
+                if how == "source":
+                    sc = Scenario(producers(env) + [with_arg(call, name, value)], wd=tmp, libs=LIBS, **({"blank": {3: 1}} if j % 2 else {}))
+                    res = progrun.run_impl(sc)
+                    first = res["load"] if res["load"] != "ok" else res["ops"][0]
+                else:
+                    sc = Scenario(producers(env), ops=[("add", with_arg(call, name, value)), ("run",)], wd=tmp, libs=LIBS)
+                    res = run_api(sc)
+                    first = res["load"] if res["load"] != "ok" else next((o for o in res["ops"] if o != "ok"), "ok")
+                exc = res.get("exc")
+                tag = "value-in-list-%s:%s.%s" % (how, cls.name, name)
+                ctx.case(tag + sc.source + repr(sc.ops), sample={"kind": tag, "source": sc.source[-300:], "ops": repr(sc.ops)[:200], "impl": first, "value": repr(getattr(exc, "value", None))[:80]})
+                ctx.count("kind:value-in-list-" + how)
+                desc = dict(sc.describe(), parameter=name, list_given=repr(value), offending_item=repr(want), error=first, error_value=repr(getattr(exc, "value", None)), message=str(exc)[:400])
+                if first == "ok":
+                    ctx.fail("ill-formed model accepted: %s = %r holds %r, which is no %s" % (name, value, want, "number" if number else "result"), desc)
+                    continue
+                if res["log"] or res["effects"]:
+                    ctx.fail("ill-formed model (%s): rejected (%s) only after executing %r" % (tag, first, res["log"]), desc)
+                if not isinstance(exc, ParameterNotValid):
+                    continue        # (another specific error: which one it is, is checked by the wrong-kind cases)
+                got = exc.value
+                if re.search(r"<[\w.]+ object at 0x[0-9a-fA-F]+>", str(exc)) or re.search(r" object at 0x[0-9a-fA-F]+>", repr(got)):
+                    ctx.fail("ParameterNotValid for an item of the list %s does not name the offending value %r: it shows an internal object (%s)" % (name, want, str(exc).splitlines()[0][:200]), desc)
+                elif not (got == want or got == value or got == _as_written(value)):
+                    ctx.fail("ParameterNotValid for an item of the list %s names %r; the offending value is %r (in the list %r)" % (name, got, want, _as_written(value)), desc)
+                elif got == want and repr(want) not in str(exc) and str(want) not in str(exc):
+                    ctx.fail("the message of ParameterNotValid for an item of the list %s does not show the offending value %r: %s" % (name, want, str(exc).splitlines()[0][:200]), desc)
+
+
 def tree(root):
     out = []
     for d, dirs, files in os.walk(root):
@@ -757,6 +875,8 @@ def run(ctx):
     api_values(ctx, model, classes, calls, env, tmp)
     eems2_faults(ctx, model, tmp, env, classes)
     kind_hierarchies(ctx, tmp, env)
+    empty_working_dir(ctx)
+    offending_values_in_lists(ctx, classes, calls, env, tmp)
     return ctx.finish(
         rule="scenarios = producers (EEMSRead, CvtToFuzzy, opaque) + one call of each of the %d command classes with valid arguments, then the same "
              "with each parameter replaced by each wrong kind of value / removed / an undeclared parameter added; unknown command, duplicate result, "
